@@ -99,6 +99,8 @@ def r1(case, rec):
     rec.case(case, nontrivial_history(h), sorted(set(a['op'] for a in h)) + ['len<=10' if len(h) <= 10 else 'len>10'])
     resp = ask(h)
     for i, (a, s, f) in enumerate(zip(h, resp['seq'], resp['fresh'])):
+        if f.get('error') == 'timeout' or s.get('error') == 'timeout':
+            raise Reject('a call did not return within the per-case time limit (inconclusive)')
         if 'error' in f:
             if f['error'].startswith('child died'):
                 raise Violation('call %d of the history (%s) kills a fresh interpreter' % (i + 1, describe(a)), op=a['op'])
